@@ -382,3 +382,6 @@ MANIFEST = {
 }
 MANIFEST['note'] += (' Also decided here (necessary conditions shared between properties or added after the independent '
                      'change rounds, DESIGN.md 8.7): Message.to_bytes keeps nothing (from C05), parse errors leave process_message, half-open states by name.')
+MANIFEST['note'] += (' Round 10: the INVALID_KE_PAYLOAD retry hands generate_request the payload sequence of the stored request '
+                     '(a cookie placed first stays first); the half-open count is read as a value term in either spelling '
+                     '(sum(1 for ..) / len([..])).')
